@@ -1,6 +1,6 @@
 // Package bind produces, from /repo's current working tree, a `go build -overlay`
 // description in which the reftable package talks to the verification engine
-// instead of os / io/ioutil / time / math/rand. See DESIGN.md section 3.
+// instead of os / io/ioutil / time / math/rand / sync. See DESIGN.md section 3.
 package bind
 
 import (
@@ -28,6 +28,9 @@ var redirect = map[string]string{
 	"io/ioutil": shimBase + "vioutil",
 	"time":      shimBase + "vtime",
 	"math/rand": shimBase + "vrand",
+	// blocking synchronisation becomes a visible wait under the cooperative scheduler and stays the
+	// real thing on free-running goroutines (shim/vsync)
+	"sync": shimBase + "vsync",
 }
 
 var forbidden = map[string]bool{
@@ -215,7 +218,7 @@ func Bind(o Options) (string, *Report, error) {
 	for _, e := range o.Exports {
 		overlay[filepath.Join(o.Repo, "zz_verif_"+e)] = filepath.Join(o.Verif, "shim", "export", e)
 	}
-	for _, s := range []string{"rt", "vos", "vioutil", "vtime", "vrand"} {
+	for _, s := range []string{"rt", "vos", "vioutil", "vtime", "vrand", "vsync"} {
 		overlay[filepath.Join(o.Repo, "zz_verif", s, s+".go")] = filepath.Join(o.Verif, "shim", s, s+".go")
 	}
 	for k, v := range o.Extra {
